@@ -1,0 +1,45 @@
+//go:build verif
+
+// Package verifhook provides named instrumentation points used by external
+// verification harnesses. With the "verif" build tag, each point counts its
+// hits and calls an optional, atomically swappable callback.
+package verifhook
+
+import (
+	"sync"
+	"sync/atomic"
+)
+
+var callback atomic.Value // of func(string)
+
+var counters sync.Map // name -> *int64
+
+// SetCallback installs fn to be called at every point (nil removes it).
+func SetCallback(fn func(name string)) {
+	if fn == nil {
+		fn = func(string) {}
+	}
+	callback.Store(fn)
+}
+
+// Point marks a named instrumentation point.
+func Point(name string) {
+	c, ok := counters.Load(name)
+	if !ok {
+		c, _ = counters.LoadOrStore(name, new(int64))
+	}
+	atomic.AddInt64(c.(*int64), 1)
+	if fn, ok := callback.Load().(func(string)); ok {
+		fn(name)
+	}
+}
+
+// Counters returns a snapshot of the hit count of every point seen so far.
+func Counters() map[string]int64 {
+	out := map[string]int64{}
+	counters.Range(func(k, v interface{}) bool {
+		out[k.(string)] = atomic.LoadInt64(v.(*int64))
+		return true
+	})
+	return out
+}
